@@ -205,6 +205,12 @@ def parse_kani_output(out, harness_names):
             r["playback_test"] = cv.group(1)
             vals = re.findall(r"//\s*(.+?)\n\s*vec!\[([^\]]*)\]", cv.group(1))
             r["concrete_vals"] = [{"value": a.strip(), "bytes": [int(x) for x in b.replace(" ", "").split(",") if x]} for a, b in vals]
+        if "CBMC timed out" in sec and not failed:
+            # kani prints "VERIFICATION:- FAILED" + "CBMC timed out" for a harness that hit --harness-timeout: undecided, not refuted
+            r["status"] = "undecided"; r["reason"] = "timeout"
+        elif r["status"] == "fail" and not failed and r.get("checks_failed", 0) == 0:
+            # "FAILED" without any failed check: CBMC / SMT solver error or killed process -- not a refutation
+            r["status"] = "undecided"; r["reason"] = "cbmc/solver error: FAILED with no failed check"
         if "unwinding assertion" in sec and r["status"] == "fail":
             if all("unwinding assertion" in f.get("desc", "") for f in failed) and failed:
                 r["status"] = "undecided"; r["reason"] = "unwinding assertion failed (bound too small)"
